@@ -701,7 +701,7 @@ def observe_tt(world, res, opt_marker=True):
     return (a[3], a[4] if isinstance(a[4], int) else 998, world.env_of(cval, a[1], a[2]))
 
 
-def run_schedule(labels, tr_cls, world, mk_ctx, observe, alias_gc=None, step_timeout=6.0):
+def run_schedule(labels, tr_cls, world, mk_ctx, observe, alias_gc=None, step_timeout=30.0):
     """Forces `labels` on the real transpiler.  Returns the observation:
     events, completed requests, transform log, errors."""
     sched = Sched(timeout=step_timeout)
@@ -899,7 +899,7 @@ def eval_cases(name, kind, cases, timeout=300):
     return True, bad
 
 
-def coq_verdict(labels, timeout=120):
+def coq_verdict(labels, timeout=600):
     """Re-runs a proposed schedule on the Coq machine: (errors, max transforms of key (0,0), coherent)."""
     body = ['From Coq Require Import List Arith Bool.', 'Import ListNotations.',
             'Require Import MV.Cache.Machine MV.Cache.KeySrc MV.Generated.C10_gen MV.Cache.MachineCheck.',
